@@ -70,6 +70,9 @@ func c01ser(s poly.Sequence) []string {
 
 func c01tmp(name string, data []byte) (string, error) {
 	dir := "/verif/build/tmp"
+	if exe, err := os.Executable(); err == nil {
+		dir = filepath.Join(filepath.Dir(filepath.Dir(exe)), "tmp") // <verif>/build/bin/run-genbank -> <verif>/build/tmp
+	}
 	if err := os.MkdirAll(dir, 0o755); err != nil {
 		return "", err
 	}
